@@ -239,11 +239,6 @@ def main(chk):
             return tlc.run("Pool", c, os.path.join(chk.work, "live"), workers=wk, timeout=900, keep_stdout=False, heap="4g")
         return tlc.run("Pool", c, os.path.join(chk.work, "mc%d" % i), workers=wk, timeout=1700, keep_stdout=False,
                        coverage=quick or i in (0, 5), heap="4g" if quick else "8g")
-    if os.environ.get("VERIF_POOL_DEV_SKIP_MC") == "1":      # development aid only (mutant iteration); never set by ./check or tools/
-        runs = runs[:1]
-        FOOT = []
-    else:
-        FOOT = FOOTPRINT
     items = [(i, label, c) for i, (label, c) in enumerate(runs)] + [(99, "live", live_cfg)]
     with cf.ThreadPoolExecutor(max_workers=par) as ex:
         outs = list(ex.map(one, items))
@@ -259,7 +254,7 @@ def main(chk):
         mc_detail.append({"config": label, "distinct": r.distinct, "generated": r.generated, "depth": r.depth, "wall_s": round(r.wall, 1)})
         for a, (d, t) in r.coverage.items():
             cov[a] = cov.get(a, 0) + t
-    for a in FOOT:
+    for a in FOOTPRINT:
         if not cov.get(a):
             chk.machinery("vacuous: action %s of Pool.tla never taken" % a)
     if rl.violated:
